@@ -262,9 +262,10 @@ Definition dump_body (l : raft_log) : Res (list N) :=
   let la := storage_last_index st in
   if f =? 0 then Panic site_l_underflow else
   bt <- storage_term st (f - 1) ;;
-  se <- (if la <? f then Ok []
-         else r <- storage_entries st f (la + 1) None (CtxEmpty false) ;;
-              match snd r with SOk v => Ok v | SErr _ => Ok [] end) ;;
+  (* also on a store holding no entries: the empty in-range read answers Ok([])
+     since /repo 9c2e6d6 *)
+  se <- (r <- storage_entries st f (la + 1) None (CtxEmpty false) ;;
+         match snd r with SOk v => Ok v | SErr _ => Ok [] end) ;;
   lf <- first_index l ;;
   le <- slice l lf (last_index l + 1) None ;;
   Ok ([committed l; persisted l; applied l; max_apply_unpersisted_log_limit l;
